@@ -26,8 +26,8 @@ REACH_TEXT = {'overflow-branch': ('wave_sim.py', 'overflows += 1'), 'pulse-filte
 
 
 def plan(tier, seed):
-    n = 150 if tier == 'quick' else 3000
-    return [{'n': n, 'drv': 200 if tier == 'quick' else 4000} for _ in range(16)]
+    n = 450 if tier == 'quick' else 12000
+    return [{'n': n, 'drv': 600 if tier == 'quick' else 15000} for _ in range(16)]
 
 
 def conclude(agg):
